@@ -523,17 +523,53 @@ def c03e(ck, prog):
         arg = decision.describe_deep(f, c.args[1], 3)
         rows.append((conds, arg))
     nc = [r for r in rows if "NoContent" in r[0] and "None" in r[1]]
-    ck.ob(R, "204:drops-length", bool(nc), f.loc(None), "" if nc else "complete() does not remove Content-Length for status 204", how="NoContent => ContentLength(None)")
     stream = [r for r in rows if "Stream" in r[0] and "None" in r[1]]
-    ck.ob(R, "stream:drops-length", bool(stream), f.loc(None), "" if stream else "complete() does not remove Content-Length for a streaming body", how="Stream => ContentLength(None)")
-    # 204: content := None
     drops = []
     for bi, st, agg in decision.field_stores(f, "content"):
         if agg is not None and agg[1].get("variant") == "None":
             fa = guards.facts_at(f, prog, bi)
             drops.append(sorted(str(tuple(x.allowed)[0]) for x in fa if x.kind == "variant" and x.allowed and len(x.allowed) == 1))
-    ok = any("NoContent" in d for d in drops)
-    ck.ob(R, "204:drops-body", ok, f.loc(None), "" if ok else "complete() does not drop the body for status 204", how="NoContent => content = None")
+    ok_len, ok_stream, ok_body = bool(nc), bool(stream), any("NoContent" in d for d in drops)
+    if not (ok_len and ok_stream and ok_body):
+        # the same decisions written with flags (`let is_no_content = matches!(..)`) and predicate helpers of Content: from
+        # every branch edge that establishes `status is NoContent` (resp. `content is a stream`), no path reaches the exit
+        # without the removal, except over an edge that finds nothing to remove
+        from .lib import pathsens
+        g = prog.inlined(f, 1, lambda caller, callee: callee.crate == caller.crate and (callee.self_ty or "").endswith("response::content::Content"))
+        exits = list(g.exits())
+        cl_none = {c.bb for c in g.calls_to(r"SetHeaders::<'set>::ContentLength$") if "None" in decision.describe_deep(g, c.args[1], 3)}
+        body_none = {bi for bi, st, agg in decision.field_stores(g, "content") if agg is not None and agg[1].get("variant") == "None"}
+
+        def edges_with(pred):
+            out = []
+            for sb in sorted(g.live_blocks()):
+                if g.blocks[sb]["t"]["k"] != "switch" or g.is_cleanup(sb):
+                    continue
+                for tb, lab in g.succ(sb):
+                    try:
+                        facts = guards.derive(g, prog, guards.edge_facts(g, prog, sb, {lab}))
+                    except Exception:
+                        facts = []
+                    if any(pred(fa) for fa in facts):
+                        out.append(tb)
+            return out
+        is_204 = lambda fa: fa.kind == "variant" and fa.allowed == {"NoContent"}
+        is_stream = lambda fa: fa.kind == "variant" and fa.allowed == {"Stream"} and "content" in (decision.describe_deep(g, fa.place, 3) if getattr(fa, "place", None) else guards.describe_origin(g, fa.steps))
+        no_header = lambda facts: any((fa.kind == "boolcall" and ((fa.truth and fa.call.name == "is_none") or (not fa.truth and fa.call.name == "is_some")) and "ContentLength(" in decision.describe_deep(g, fa.call.args[0], 3))
+                                      or (fa.kind == "variant" and fa.allowed == {"None"} and "ContentLength" in guards.describe_origin(g, fa.steps)) for fa in facts)
+        no_body = lambda facts: any(fa.kind == "variant" and fa.allowed == {"None"} and "content" in (decision.describe_deep(g, fa.place, 3) if getattr(fa, "place", None) else guards.describe_origin(g, fa.steps)) for fa in facts)
+
+        def always(starts, through, unless):
+            # (a later re-test of the same condition, after the removal logic, is not a decision point for the removal)
+            starts = [tb for tb in starts if any(x in g.reachable_from(tb) for x in through)]
+            return bool(starts) and bool(through) and all(pathsens.path_avoiding_edges(g, prog, tb, ex, unless, constprop=True, avoid=tuple(through)) is None for tb in starts for ex in exits)
+        e204, estream = edges_with(is_204), edges_with(is_stream)
+        ok_len = ok_len or always(e204, cl_none, no_header)
+        ok_stream = ok_stream or always(estream, cl_none, no_header)
+        ok_body = ok_body or always(e204, body_none, no_body)
+    ck.ob(R, "204:drops-length", ok_len, f.loc(None), "" if ok_len else "complete() does not remove Content-Length for status 204", how="NoContent => ContentLength(None)")
+    ck.ob(R, "stream:drops-length", ok_stream, f.loc(None), "" if ok_stream else "complete() does not remove Content-Length for a streaming body", how="Stream => ContentLength(None)")
+    ck.ob(R, "204:drops-body", ok_body, f.loc(None), "" if ok_body else "complete() does not drop the body for status 204", how="NoContent => content = None")
     # Router::handle calls complete on every path to its return
     h = prog.coroutine_body(prog.one(r"^ohkami::router::r#final::Router::handle$|^ohkami::router::final::Router::handle$|router::.*final.*::Router::handle$").key)
     cs = h.calls_to(r"^ohkami::response::Response::complete$")
